@@ -74,6 +74,7 @@ class C01(Check):
     def translate(self, ctx):
         wntr = vlib.import_wntr()
         self.info = T.write_c01(wntr)
+        ctx.cov["updater_registrations"] = T.write_updater(wntr)
         ctx.cov["zoo_rows"] = {k: v["rows"] for k, v in self.info.items()}
 
     # ------------------------------------------------------------------ static rows of random networks
